@@ -66,6 +66,8 @@ def strategy(tier):
             min_size=0, max_size=5,
             unique_by=(lambda t: t[0], lambda t: t[1])),
         oneshot=st.booleans(),
+        # the oneshot() block is left by an exception (the caller's own)
+        oneshot_exc=st.booleans(),
     ))
 
 
@@ -177,7 +179,14 @@ def run_case(case):
                 except Exception as e:  # noqa: BLE001
                     raise Violation(m, f"{m}() raised {e!r}") from None
 
-        if case["oneshot"]:
+        if case["oneshot"] and case.get("oneshot_exc"):
+            try:
+                with proc.oneshot():
+                    call_all()
+                    raise KeyError("the caller's own error inside the block")
+            except KeyError:
+                pass
+        elif case["oneshot"]:
             with proc.oneshot():
                 call_all()
         else:
@@ -260,6 +269,8 @@ def run_case(case):
         chk2("cpu_num", got2["cpu_num"] == (case["processor"] + 1) % 4096, (case["processor"] + 1) % 4096)
         chk2("name", got2["name"] == "renamed", "renamed")
     f = features(case)
+    if case["oneshot"] and case.get("oneshot_exc"):
+        f = set(f) | {"oneshot-left-by-exception"}
     labels = sorted(f) + ["oneshot" if case["oneshot"] else "plain",
                           "threads=%d" % min(nthr, 4),
                           "leader-own-ticks" if case.get("leader_own") else "leader=process",
